@@ -146,7 +146,7 @@ func TestVerif_C03(t *testing.T) {
 	run := verifkit.Start(t, "C03", "collect")
 	defer run.Finish()
 	defer e1TuneRuntime(run)()
-	run.Rule("seeded timing histories on the real collector (1–3 workers; SendTicker/SendDelay/TraceTimeout from 8 combinations incl. zero defaults and off-grid values; SpanLimit 0/2/4; MaxExpiredTraces 0/1/3): roots and children added on, 1ns before and 1ns after model deadlines and ticks, root after the timeout, root after the span limit, equal deadlines, backlogs of 3×MaxExpiredTraces+1 on one worker, ejections; a third each dry-run, keep-everything and keep/drop-by-field; non-trivial = at least two of {clock landed exactly on a deadline, backlog beyond MaxExpiredTraces, root after its trace timed out, span limit exceeded, deadline tie}; distinct = configuration class × feature set")
+	run.Rule("seeded timing histories on the real collector (1–3 workers; SendTicker/SendDelay/TraceTimeout from 8 combinations incl. zero defaults and off-grid values; SpanLimit 0/2/4; MaxExpiredTraces 0/1/3): roots and children added on, 1ns before and 1ns after model deadlines and ticks, root after the timeout, root after the span limit, equal deadlines, backlogs of 3×MaxExpiredTraces+1 on one worker, ejections; a third each dry-run, keep-everything and keep/drop-by-field; non-trivial = at least two of {clock landed exactly on a deadline, backlog beyond MaxExpiredTraces, root after its trace timed out, span limit exceeded, deadline tie, deadline passed while the worker sat idle in its select since before the deadline}; distinct = configuration class × feature set")
 	run.Assume("decision instant = virtual time of the E1 step in which the trace's buffered spans reach the recorder (dry-run / keep-everything) or the trace_send_dropped counter moves (keep/drop histories, MaxExpiredTraces unlimited there)")
 	run.Assume("trace-to-worker assignment is read from the collector (getWorkerIDForTrace); equal-deadline order inside one tick is unspecified and any order is accepted")
 
@@ -204,7 +204,9 @@ func TestVerif_C03(t *testing.T) {
 			broken = true
 			run.Violation(sig, what, w)
 		}
+		var prevAt time.Duration // virtual instant of the previous step = loop-start time of every (idle) worker
 		e.OnQuiesce(func(v *E1View) {
+			defer func() { prevAt = e.Now() }()
 			evs := e.EventsFrom(seen)
 			seen += len(evs)
 			dropped := e.Counter("trace_send_dropped")
@@ -315,6 +317,12 @@ func TestVerif_C03(t *testing.T) {
 							}
 							if tr.SendBy == tickAt {
 								feat["exact"] = true
+							}
+							if tr.SendBy > prevAt {
+								// the worker's loop iteration began (E1 resume barrier) before the deadline and it stayed
+								// parked in its select until this tick: "now" must be read when the tick is handled
+								feat["slept-through-deadline"] = true
+								run.Count("decisions_with_deadline_after_last_wakeup", 1)
 							}
 							tr.Decided = true
 						} else if mode == "keepdrop" && isDue && !tr.Keep {
@@ -541,7 +549,7 @@ func TestVerif_C03(t *testing.T) {
 		}
 		sort.Strings(feats)
 		nt := 0
-		for _, k := range []string{"exact", "backlog", "root-after-timeout", "span-limit", "tie", "root-after-span-limit"} {
+		for _, k := range []string{"exact", "backlog", "root-after-timeout", "span-limit", "tie", "root-after-span-limit", "slept-through-deadline"} {
 			if feat[k] {
 				nt++
 			}
